@@ -267,13 +267,18 @@ func makeSigned(kind string, attrs, detached bool, signer string, content []byte
 	}
 	if kind == "rsa" && attrs && (signer == "a" || signer == "c") {
 		// the package's own producer
-		if s := librarySigned(h, detached, content); s != nil {
+		if s := librarySigned(h, detached, content, signer == "c"); s != nil {
 			return s
 		}
 	}
 	si := m7Signer{Version: 1, IssuerAndSerialNumber: m7IAS{asn1.RawValue{FullBytes: cert.RawIssuer}, cert.SerialNumber}, DigestAlgorithm: digAlg, DigestEncryptionAlgorithm: sigAlg}
 	if attrs {
-		si.AuthenticatedAttributes = sortedAttrs([]m7Attr{attrOf(o7AttrCT, o7Data), attrOf(o7AttrMD, digest17(kind, content)), attrOf(o7AttrTime, signingTime0)})
+		list := []m7Attr{attrOf(o7AttrCT, o7Data), attrOf(o7AttrMD, digest17(kind, content)), attrOf(o7AttrTime, signingTime0)}
+		if signer == "b" || signer == "x" {
+			// one more signed attribute (100 bytes): the SET the signature covers is longer than 127 bytes, its length two octets
+			list = append(list, attrOf(asn1.ObjectIdentifier{1, 2, 3, 4, 5, 6, 7, 8}, bytes.Repeat([]byte{0x5a}, 100)))
+		}
+		si.AuthenticatedAttributes = sortedAttrs(list)
 		si.EncryptedDigest = sign17(kind, h, attrsDER(si.AuthenticatedAttributes))
 	} else {
 		si.EncryptedDigest = sign17(kind, h, content)
@@ -289,12 +294,17 @@ func makeSigned(kind string, attrs, detached bool, signer string, content []byte
 }
 
 // NewSignedData / AddSigner / Detach / Finish, read back into the mirror structures so that the same changes apply
-func librarySigned(h *holder17, detached bool, content []byte) *signed17 {
+// (for signer c with an extra signed attribute of 100 bytes: the SET of attributes then needs a two-octet length)
+func librarySigned(h *holder17, detached bool, content []byte, extra bool) *signed17 {
 	sd, err := x509.NewSignedData(content)
 	if err != nil {
 		panic(err)
 	}
-	if err := sd.AddSigner(h.rsaCert, h.rsaKey, x509.SignerInfoConfig{}); err != nil {
+	cfg := x509.SignerInfoConfig{}
+	if extra {
+		cfg.ExtraSignedAttributes = []x509.Attribute{{Type: asn1.ObjectIdentifier{1, 2, 3, 4, 5, 6, 7, 8}, Value: bytes.Repeat([]byte{0x5a}, 100)}}
+	}
+	if err := sd.AddSigner(h.rsaCert, h.rsaKey, cfg); err != nil {
 		panic(err)
 	}
 	if detached {
@@ -545,6 +555,10 @@ func wrongPwd17(pw, how string) string {
 			}
 		}
 		return pw + "?"
+	case "nulsuffix":
+		return pw + "\x00"
+	case "nulpad":
+		return pw + strings.Repeat("\x00", len(pw)-len(r))
 	case "longer":
 		return pw + "x"
 	case "shorter":
